@@ -15,6 +15,8 @@ TEXT = {
          "Trusted: Coq kernel, translator (check_overlapping_partitions), extraction, harness; header equality is dataclass equality of the scanned metadata (modelled as an opaque id); zarr's refusal to create an existing array."),
  "C08": ("Coq theorems, generic in the value type and the size function: values_roundtrip (whole-column read = appended values for every partitioning and flush threshold), chunks_nonempty, range_read (the two-level searchsorted range read of iter_values equals the slice for EVERY store shape incl. empty partitions/chunks and every a<b), num_records_eq, summary_bounds (min/max bound every non-sentinel integer and are attained; max_number exact), summary_partition_independent; the hand-written model is tied to IcfFieldWriter / IntermediateColumnarFormatField by an in-process differential (observed sys.getsizeof fed to the model, all O(n^2) ranges in shuffled order) and end to end against the source records and a 1-partition reference.",
          "Trusted: Coq kernel, extraction, harness; pickle/Blosc round-tripping a chunk; cyvcf2 as the 'source read'. Phasing of calls with < 2 alleles is a don't-care (cyvcf2 reports an indeterminate bit, finding F8)."),
+ "C12": ("Coq theorems region_index_spec (for all record lists with pos+len-1 inside int32 and every chunk size, the index built with the code's int32 arithmetic -- wrap written into the model -- equals the specification index computed in Z), rows_cover_once (the rows' runs concatenate to the record list: every record in exactly one row, in order), runs_are_maximal_uniform, row_fields (first/last position, count, max end attained and bounding), chunk_sizes, plus the pre-fix int8 wrap witness; tied by in-process differential of the real create_index on synthetic zarr stores in i1/i2/i4 and end to end on generated VCFs with END-style spans; the extracted check_C12 is evaluated on the real index.",
+         "Trusted: Coq kernel, extraction, harness; numpy's integer promotion/wrap and zarr block access are modelled (wrap32), not verified."),
 }
 
 def main():
